@@ -120,8 +120,8 @@ func (cl *cluster) stateOracles(v controller.VerifView) {
 			}
 		}
 	}
-	if cl.wants("c13") && quiescent && len(rw) > 1 {
-		// a volume snapshot (user or add-time) is on every replica in service or on none: RW replicas list the same chain
+	if (cl.wants("c13") || cl.wants("c05")) && quiescent && len(rw) > 1 {
+		// a volume snapshot (user or add-time) is on every replica in service or on none (C05: a replica that failed the call is detached): RW replicas list the same chain
 		c0 := cl.nodes[rw[0]].View().Chain
 		for _, n := range rw[1:] {
 			if cn := cl.nodes[n].View().Chain; fmt.Sprint(cn) != fmt.Sprint(c0) {
